@@ -1,0 +1,12 @@
+//go:build verif
+
+// Contracts for the deductive checker in /verif (read only with -tags verif).
+
+package sm4
+
+// the public constructor: a 16-byte block cipher for a 16-byte key, an error for any other length
+//@ func NewCipher property C02
+//@   ensures len(key) != 16 <==> err != nil
+//@   ensures err == nil ==> result0 != nil && BS(id(result0)) == 16
+//@   ensures err != nil ==> result0 == nil
+//@   modifies nothing
